@@ -8,6 +8,10 @@ import RbV.Model.SampledGet
 import RbV.Model.LFMulti
 import RbV.Model.PosTypes
 import RbV.Lemmas.SaisMain
+import RbV.Thm.GenSrcSmallInts
+import RbV.Lemmas.SmallInts
+import RbV.Thm.GenSrcSampledGet
+import RbV.Thm.GenSrcOcc
 import RbV.Lemmas.SaisWidth
 import RbV.Gen.SaisWidth
 /-!
@@ -352,6 +356,156 @@ set_option maxRecDepth 100000 in
 example : Sais.suffixArray [98, 97, 110, 97, 110, 97, 36, 98, 97, 110, 97, 110, 97, 36] =
     [13, 6, 12, 5, 10, 3, 8, 1, 7, 0, 11, 4, 9, 2] := by decide
 
+/-! ## `LCPArray = SmallInts<i8, isize>`: the container `lcp()` writes through, translated from the source text
+
+`lcp()` builds its result with `SmallInts::from_elem(-1, n + 1)` and fills it exclusively through `set`; readers use
+`get` / `iter`.  `RbV/Gen/SrcSmallInts.lean` is regenerated from `src/data_structures/smallints.rs` on every `./check C03`
+(docs/notes/GEN.md, "Translated function bodies"); proofs in `RbV/Thm/GenSrcSmallInts.lean`, the container theorems proper
+are C18's.  Stated here for the `i8` range `[-128, 127]`. -/
+section lcp_container
+open RbV.Thm.GenSrcSmallInts
+
+/-- `SmallInts::from_elem(-1, m)`, as written, passes both assertions and builds `m` small entries `-1`; then any sequence
+of `set`s at existing indices, run with the **translated** `set`, does not panic, and the translated `get` reads back, at
+every index, the last value written there (or `-1`), `None` beyond the end — the plain-vector behaviour `lcp()` relies on,
+including values `≥ 127` that go to the overflow map -/
+theorem lcp_container_source_exact (m : Nat) (writes : List (Nat × Int)) (hw : ∀ x ∈ writes, x.1 < m) :
+    Gen.SrcSmallInts.fromElem (β := Int) (cBS (-128) 127) cSB (cZ (-128) 127) ltI 127 1 8 (-1) m
+      = Rs.Res.ok (List.replicate m (-1), []) ∧
+    ∃ small big,
+      (writes.map (fun x => Spec.SmallInts.Op.set x.1 x.2)).foldlM (srcStep (-128) 127 1 8) (List.replicate m (-1), [])
+        = Rs.Res.ok (small, big) ∧
+      ∀ i, Gen.SrcSmallInts.get (cBS (-128) 127) cSB (cZ (-128) 127) ltI 127 1 8 small big i
+        = Rs.Res.ok ((writes.foldl (fun l x => l.set x.1 x.2) (List.replicate m (-1)))[i]?) := by
+  refine ⟨fromElem_eq_model (-128) 127 (by omega) 1 8 (by omega) (-1) m (by omega), ?_⟩
+  have habs0 := Lemmas.SmallInts.abs_fromElem 127 (-1) m (by omega)
+  have hok : ∀ (ws : List (Nat × Int)) (l : List Int), l.length = m → (∀ x ∈ ws, x.1 < m) →
+      OpsOk l (ws.map (fun x => Spec.SmallInts.Op.set x.1 x.2)) := by
+    intro ws
+    induction ws with
+    | nil => intro _ _ _; trivial
+    | cons x ws ih =>
+      intro l hl hx
+      refine ⟨by simpa [hl] using hx x (by simp), ih _ (by simpa [Spec.SmallInts.specStep] using hl) ?_⟩
+      intro y hy; exact hx y (by simp [hy])
+  have hrun := run_eq_model (-128) 127 1 8 _ _ _ habs0
+    (hok writes _ (by simp [Spec.SmallInts.specFromElem]) hw)
+  have habs := Lemmas.SmallInts.abs_run (-128) 127 (writes.map (fun x => Spec.SmallInts.Op.set x.1 x.2)) _ _ habs0
+  have hspec : ∀ (ws : List (Nat × Int)) (l : List Int),
+      (ws.map (fun x => Spec.SmallInts.Op.set x.1 x.2)).foldl Spec.SmallInts.specStep l
+        = ws.foldl (fun l x => l.set x.1 x.2) l := by
+    intro ws
+    induction ws with
+    | nil => intro l; rfl
+    | cons x ws ih => intro l; simp only [List.map_cons, List.foldl_cons, Spec.SmallInts.specStep, ih]
+  refine ⟨_, _, hrun, fun i => ?_⟩
+  rw [get_eq_model, Lemmas.SmallInts.get_of_abs 127 _ _ habs i, hspec]
+  rfl
+
+-- an LCP value of exactly 127 (= `i8::MAX`, the overflow marker) written through the translated `set` reads back
+example : (do
+    let (sm, bg) ← Gen.SrcSmallInts.set (cBS (-128) 127) cSB (cZ (-128) 127) ltI 127 1 8 [-1, -1, -1] [] 1 127
+    Gen.SrcSmallInts.get (cBS (-128) 127) cSB (cZ (-128) 127) ltI 127 1 8 sm bg 1) = Rs.Res.ok (some 127) := by decide
+
+end lcp_container
+/-! ## `SampledSuffixArray::get` translated from the source text (docs/notes/GEN.md, "Translated function bodies")
+
+`RbV/Gen/SrcSampledGet.lean` is regenerated from `src/data_structures/suffix_array.rs` by `tools/rs2lean.py` on every
+`./check C03` (proofs: `RbV/Thm/GenSrcSampledGet.lean`): the `loop` is a recursive helper on fuel `len + 1`,
+`self.extra_rows[&pos]` an abstract partial lookup followed by `.unwrap()`, `self.occ.borrow().get(…)` the abstract `occF`. -/
+
+/-- **`SampledSuffixArray::get`, as written, returns what the mirror model `Sampled.sampledGet` returns** whenever that is
+`some v` (the model's `none` stands for a failed lookup / exhausted fuel, where the code would panic), with the stored
+`sample` vector and `extra_rows` map being what `SuffixArray::sample` puts there, provided every LF step stays inside
+the BWT (`hstep`), every BWT symbol indexes the `less` array, suffix-array entries are positions and `n + 1 < 2^63` -/
+theorem sampled_get_source_eq_model (occF : Nat → Nat → Nat) (bwt sa : List Nat) (s sent : Nat) (lessA : List Nat)
+    (hs : 0 < s) (hsa : ∀ p, sa.getD p 0 < bwt.length) (hsym : ∀ c ∈ bwt, c < lessA.length)
+    (hstep : ∀ pos, pos < bwt.length → pos % s ≠ 0 → bwt.getD pos 0 ≠ sent →
+      lessA.getD (bwt.getD pos 0) 0 + occF (pos - 1) (bwt.getD pos 0) < bwt.length)
+    (hn : bwt.length + 1 < 2 ^ 63) (i v : Nat) (h : Sampled.sampledGet bwt sa s sent lessA occF i = some v) :
+    Gen.SrcSampledGet.get (Sampled.extraRow bwt sa s sent) occF bwt.length bwt lessA (Sampled.sampleVec sa s) s sent i
+      = Rs.Res.ok (some v) :=
+  GenSrcSampledGet.get_eq_model occF bwt sa s sent lessA hs hsa hsym hstep hn i v h
+
+/-- **generated code = specification: `get(i) = Some(sa[i])`** for the translated `SampledSuffixArray::get`, on every
+array accepted by `checkSA`, for every text of the property's quantifier (any number of sentinel occurrences, the
+sentinel being the smallest symbol), every sampling rate `s ≥ 1`, every Occ rate `k ≥ 1` and every row — with `less` =
+the model of `less()` and `occ` = the model of `Occ::get ∘ Occ::new` (both proved equal to the translated functions in
+C04: `less_source_eq_model`, `occ_get_source_eq_model`); no panic, fuel sufficient -/
+theorem sampled_get_source_exact_all (t sa : List Nat) (s k m : Nat) (hc : checkSA t sa = true)
+    (hmin : ∀ p, p < t.length → sentinelOf t ≤ t.getD p 0)
+    (hs : 0 < s) (hk : 0 < k) (hm : ∀ x ∈ t, x < m) (hlen : t.length + 1 < 2 ^ 63) (i : Nat) (hi : i < t.length) :
+    Gen.SrcSampledGet.get (Sampled.extraRow (bwtRef t sa) sa s (sentinelOf t))
+      (fun r c => OccM.occGet (OccM.occNewLoop (bwtRef t sa) k c) (bwtRef t sa) k r c) (bwtRef t sa).length (bwtRef t sa)
+      (OccM.lessModel (bwtRef t sa) m) (Sampled.sampleVec sa s) s (sentinelOf t) i = Rs.Res.ok (some (sa.getD i 0)) := by
+  obtain ⟨B, rk, ho, hp, hpw⟩ := checkSA_isSA t sa hc
+  rw [length_keyText] at hp
+  have hsal : sa.length = t.length := by simpa using hp.length_eq
+  have hbl : (bwtRef t sa).length = t.length := by unfold bwtRef; rw [List.length_map, hsal]
+  have hpos : 0 < t.length := by omega
+  apply GenSrcSampledGet.get_eq_model _ _ _ _ _ _ hs
+  · intro p
+    rw [hbl]
+    by_cases hpl : p < sa.length
+    · rw [GenSrc.getD_of_lt sa p 0 hpl]
+      simpa using (hp.mem_iff).mp (List.getElem_mem hpl)
+    · rw [List.getD_eq_getElem?_getD, List.getElem?_eq_none (by omega)]; exact hpos
+  · intro c hcm
+    rw [GenSrcLess.length_lessModel]
+    unfold bwtRef at hcm
+    obtain ⟨p, _, rfl⟩ := List.mem_map.mp hcm
+    have hlt : (p + t.length - 1) % t.length < t.length := Nat.mod_lt _ hpos
+    rw [List.getD_eq_getElem?_getD, List.getElem?_eq_getElem hlt]
+    exact hm _ (List.getElem_mem hlt)
+  · intro pos hposn hmod _
+    have hpos1 : 1 ≤ pos := by
+      rcases Nat.eq_zero_or_pos pos with h0 | h0
+      · subst h0; simp at hmod
+      · exact h0
+    have hcm : (bwtRef t sa).getD pos 0 < m := by
+      rw [GenSrc.getD_of_lt _ pos 0 hposn]
+      have hmem : (bwtRef t sa)[pos] ∈ bwtRef t sa := List.getElem_mem hposn
+      unfold bwtRef at hmem
+      obtain ⟨p, _, hpe⟩ := List.mem_map.mp hmem
+      have hlt : (p + t.length - 1) % t.length < t.length := Nat.mod_lt _ hpos
+      rw [List.getD_eq_getElem?_getD, List.getElem?_eq_getElem hlt] at hpe
+      have := hm _ (List.getElem_mem hlt)
+      simp only [Option.getD_some] at hpe
+      unfold bwtRef
+      rw [← hpe]; exact this
+    have e1 : (OccM.lessModel (bwtRef t sa) m).getD ((bwtRef t sa).getD pos 0) 0
+        = lessRef (bwtRef t sa) ((bwtRef t sa).getD pos 0) := by
+      rw [List.getD_eq_getElem?_getD, OccM.less_eq _ m _ hcm]; rfl
+    have e2 := OccM.occ_get_eq (bwtRef t sa) k (pos - 1) ((bwtRef t sa).getD pos 0) hk (by omega)
+    rw [e1]
+    show lessRef _ _ + OccM.occGet _ _ k (pos - 1) _ < _
+    rw [OccM.occNewLoop_eq _ k _ hk, e2]
+    exact GenSrcSampledGet.lf_step_lt (bwtRef t sa) pos hpos1 hposn
+  · rw [hbl]; exact hlen
+  · exact sampled_get_exact_all t sa s k m hc hmin hs hk hm i hi
+
+/-- the `occ` of `sampled_get_source_exact_all` is what the translated `Occ::get` (`RbV/Gen/SrcOcc.lean`, regenerated
+from `bwt.rs` on every `./check C03` as well) returns on a table whose column `c` is the checkpoint column built by the
+loop of `Occ::new` — for every `1 ≤ k < 2^32` and every row (restated from C04, `RbV/Thm/GenSrcOcc.lean`) -/
+theorem sampled_get_occ_source_eq_model (occ : List (List Nat)) (k : Nat) (bwt : List Nat) (r c : Nat)
+    (hcp : occ[c]? = some (OccM.occNewLoop bwt k c)) (hk : 0 < k) (hk32 : k < 2 ^ 32) (hr : r < bwt.length)
+    (hn : bwt.length < 2 ^ 64) :
+    Gen.SrcOcc.get (fun s x => s.count x) occ k bwt r c
+      = Rs.Res.ok (OccM.occGet (OccM.occNewLoop bwt k c) bwt k r c) := by
+  rw [OccM.occNewLoop_eq bwt k c hk] at hcp ⊢
+  rw [OccM.occ_get_eq bwt k r c hk hr]
+  exact GenSrcOcc.get_exact_of_table occ k bwt r c hcp hk hk32 hr hn
+
+-- GATTACA$-like text "A$A$" (65, 36), sampling rate 2: every row through the translated function
+example : (List.range 4).map (fun i => Gen.SrcSampledGet.get (Sampled.extraRow (bwtRef [65, 36, 65, 36] [3, 1, 2, 0]) [3, 1, 2, 0] 2 36)
+      (fun r c => OccM.occGet (OccM.occNewLoop (bwtRef [65, 36, 65, 36] [3, 1, 2, 0]) 3 c) (bwtRef [65, 36, 65, 36] [3, 1, 2, 0]) 3 r c)
+      4 (bwtRef [65, 36, 65, 36] [3, 1, 2, 0]) (OccM.lessModel (bwtRef [65, 36, 65, 36] [3, 1, 2, 0]) 67)
+      (Sampled.sampleVec [3, 1, 2, 0] 2) 2 36 i) = [3, 1, 2, 0].map (fun v => Rs.Res.ok (some v)) := by decide
+-- a row outside the array is `None`; an empty `extra_rows` map where an entry is needed: the hash-map index panics
+example : Gen.SrcSampledGet.get (fun _ => none) (fun _ _ => 0) 4 [65, 65, 36, 36] [0, 0] [3, 2] 2 36 7 = Rs.Res.ok none := by
+  decide
+example : Gen.SrcSampledGet.get (fun _ => none) (fun _ _ => 0) 4 [65, 65, 36, 36] (List.replicate 67 0) [3, 2] 2 36 3
+    = Rs.Res.panic := by decide
 /-! ### Integer widths of SA-IS (`u8`/`u16`/`u32`/`u64` dispatch)
 
 The mirror keeps every text as `List Nat`.  In the Rust code the transformed text is a `Vec<T>` with `T` chosen by
